@@ -25,6 +25,7 @@ CONSTANTS Tasks,      \* set of task ids
           Bug         \* "none" or the name of a design mutant (leg M only)
 VARIABLES state,      \* the lock word
           pc,         \* task -> "idle" | "acq" | "try" | "wonA" | "wonT" | "lost" | "cs" | "rel" | "released"
+                      \*         | "srel" | "sreleased" (a stray Release, see below)
           counter,    \* the datum protected by the lock
           tmp,        \* task -> value of counter read on entry
           done        \* number of completed critical sections (history)
@@ -76,7 +77,7 @@ RelCall(t) == /\ pc[t] = "cs"
               /\ UNCHANGED <<state, tmp, done>>
 
 Store0(t) == /\ pc[t] = "rel"
-             /\ state' = IF Bug = "ReleaseStoresOne" THEN 1 ELSE 0
+             /\ state' = IF Bug = "ReleaseStoresOne" THEN 1 ELSE IF Bug = "ReleaseDecrements" THEN state - 1 ELSE 0
              /\ pc' = [pc EXCEPT ![t] = "released"]
              /\ UNCHANGED <<counter, tmp, done>>
 
@@ -85,8 +86,26 @@ RelRet(t) == /\ pc[t] = "released"
              /\ done' = done + 1
              /\ UNCHANGED <<state, counter, tmp>>
 
-Silent(t)  == XchgOk(t) \/ XchgBusy(t) \/ Store0(t) \/ NonAtomicRead(t) \/ NonAtomicWrite(t)
-Visible(t) == Call(t, "acq") \/ Call(t, "try") \/ RetOk(t) \/ RetFail(t) \/ RelCall(t) \/ RelRet(t)
+\* "Calling Release while the lock is free has no effect" (doc comment of Spinlock.Release): a task that does not
+\* hold the lock - it may never have acquired it - calls Release while the lock is free and nobody else is inside
+\* any call; the lock stays free and can be taken afterwards.  (A stray Release while somebody holds the lock, or
+\* races for it, breaks every spinlock and is outside the property.)
+AllIdle == \A u \in Tasks : pc[u] = "idle"
+NoStray == \A u \in Tasks : pc[u] \notin {"srel", "sreleased"}
+StrayCall(t) == /\ AllIdle /\ state = 0
+                /\ pc' = [pc EXCEPT ![t] = "srel"]
+                /\ UNCHANGED <<state, counter, tmp, done>>
+StrayStore(t) == /\ pc[t] = "srel"
+                 /\ state' = IF Bug = "ReleaseStoresOne" THEN 1 ELSE IF Bug = "ReleaseDecrements" THEN state - 1 ELSE 0
+                 /\ pc' = [pc EXCEPT ![t] = "sreleased"]
+                 /\ UNCHANGED <<counter, tmp, done>>
+StrayRet(t) == /\ pc[t] = "sreleased"
+               /\ pc' = [pc EXCEPT ![t] = "idle"]
+               /\ UNCHANGED <<state, counter, tmp, done>>
+
+Silent(t)  == XchgOk(t) \/ XchgBusy(t) \/ Store0(t) \/ StrayStore(t) \/ NonAtomicRead(t) \/ NonAtomicWrite(t)
+Visible(t) == \/ NoStray /\ (Call(t, "acq") \/ Call(t, "try"))
+              \/ RetOk(t) \/ RetFail(t) \/ RelCall(t) \/ RelRet(t) \/ StrayCall(t) \/ StrayRet(t)
 LockNext == \E t \in Tasks : Silent(t) \/ Visible(t)
 
 ---------------------------------------------------------------------------
@@ -102,5 +121,5 @@ Visibility == counter = done + Cardinality({t \in Tasks : pc[t] \in {"rel", "rel
 \* action property): checked as  [][TryHonestStep]_lockvars
 TryHonestStep == \A t \in Tasks : (pc[t] = "try" /\ pc'[t] = "lost") => (Holding \ {t} # {} /\ state' = state)
 TypeOK == /\ state \in {0, 1}
-          /\ pc \in [Tasks -> {"idle", "acq", "try", "wonA", "wonT", "lost", "cs", "rel", "released", "sawfree"}]
+          /\ pc \in [Tasks -> {"idle", "acq", "try", "wonA", "wonT", "lost", "cs", "rel", "released", "sawfree", "srel", "sreleased"}]
 ====
